@@ -5,6 +5,10 @@ VERIF = os.path.dirname(os.path.dirname(os.path.abspath(__file__)))
 ALL = ["C%02d" % i for i in range(1, 21)]
 
 CLAIMED = {
+ "C15": dict(
+    text="Bounded-exhaustive: ALL 0/1 grids of at most 16 cells (quick; 576 650 grids) / 20 cells (thorough; 9.7 million) in every rows x cols shape are decided by a brute-force existence oracle over all all-ones trunks and every offered decomposition is validated as a partition into trunk + abutting branches; beyond the bound, generated grids up to 8x8 (orthogons, near-orthogons, rings, staircases, two components, explicit row/column sizes) and generated orthogon polygons on non-uniform fractional lattices (both orientations, every start vertex, redundant vertices, Points / numpy rows) through strop_decomposition and Netlist loading.",
+    note="Exhaustive only inside the stated bound; sampling beyond it. Trusted: the 30-line existence oracle written from the statement; exact geometry for the polygon union.",
+    technique="bounded exhaustive enumeration + property-based testing (Hypothesis) against a brute-force reference", ref="4/C15"),
  "C03": dict(
     text="Generated dies (blockages, specialised and fixed regions, optionally refined by split_refinable_regions / initial_grid) with compatible netlists (fixed modules on the die's fixed rectangles; soft modules with rectangles or centre-only squares, hard modules; overlapping each other, blockages, fixed cells, sticking out of the die), both include-zero settings; oracle: expected[cell][module] = exact intersection area / cell area from the source model in Fractions (40-digit sqrt for squares), fixed cells owned {F: 1.0} and nothing else, allocated module area = exact covered area, listing only on overlap.",
     note="Trusted: exact geometry, the die's own cell list (C01 / C11). Tolerance 1e-9 absolute on ratios; 'not listed' asserted only one lattice step clear of contact. Modules overlapping no refinable cell are outside the quantifier.",
